@@ -444,6 +444,7 @@ func updateAPIKeys(_ context.Context, _ interface{}) error {
 		})
 	}
 
+	verifEvent("updateAPIKeys:done", hasExpiredKeys, len(apiKeys))
 	return nil
 }
 
